@@ -46,7 +46,7 @@ import (
 )
 
 var workerFlag = flag.Bool("worker", false, "internal: run as worker (units on stdin)")
-var partFlag = flag.String("part", "all", "all|histories|damage")
+var partFlag = flag.String("part", "all", "all|histories|damage|live")
 
 // ---- unit generation ----
 
@@ -178,6 +178,22 @@ func buildUnits(r *vk.Run) []unit {
 				us = append(us, historyUnitsFrom("core", 5, 2.5e-3, st)...)
 			}
 			us = append(us, historyUnitsFrom("full", 4, 2.5e-3, 999)...)
+		}
+	}
+	if *partFlag == "all" || *partFlag == "live" {
+		// part 3: readers that are open while the log is written and rotates
+		lu := func(alpha string, depth int) {
+			for _, u := range historyUnits0(alpha, depth, 0.35e-3) {
+				u.Phase = 3
+				u.Group = fmt.Sprintf("live-readers/%s/depth<=%d", alpha, depth)
+				us = append(us, u)
+			}
+		}
+		if r.Quick() {
+			lu("live1", 6)
+		} else {
+			lu("live1", 7)
+			lu("live2", 7)
 		}
 	}
 	if *partFlag == "all" || *partFlag == "damage" {
@@ -401,6 +417,8 @@ func main() {
 		switch {
 		case rp.Unit != nil:
 			units = []unit{*rp.Unit}
+		case rp.Phase == 3:
+			units = []unit{{Phase: 3, Group: "replay", Alpha: rp.Alpha, Prefix: rp.OpIDs, Exact: true}}
 		case rp.Phase == 1:
 			units = []unit{{Phase: 1, Group: "replay", Alpha: rp.Alpha, Prefix: rp.OpIDs, Exact: true, Start: rp.Start}}
 		default:
@@ -508,7 +526,7 @@ func main() {
 		row := map[string]interface{}{"group": g, "units": groupUnits[g][0], "units_completed": groupUnits[g][1], "distinct_states_or_images": len(a.states[g])}
 		for k, n := range a.stats[g] {
 			total[k] += n
-			if strings.HasPrefix(k, "read/") || strings.HasPrefix(k, "search/") {
+			if strings.HasPrefix(k, "read/") || strings.HasPrefix(k, "search/") || strings.HasPrefix(k, "live/") {
 				outcomes[k] += n
 				continue
 			}
@@ -563,8 +581,10 @@ func main() {
 	r.Set("outcomes", outcomes)
 	r.Set("states", states)
 	r.Set("transitions", transitions)
-	r.Set("traces_validated_against_impl", total["histories"]+total["images"])
+	r.Set("traces_validated_against_impl", total["histories"]+total["images"]+total["live_histories"])
 	r.Set("histories", total["histories"])
+	r.Set("live_reader_histories", total["live_histories"])
+	r.Set("live_reader_reads", total["live_reads"])
 	r.Set("damage_images", total["images"])
 	r.Set("damage_image_bytes", total["image_bytes"])
 	r.Set("truncations", total["truncations"])
@@ -579,6 +599,7 @@ func main() {
 	r.Assume("the head size limit is 1 byte, so a tick rotates whenever the head file is non-empty; larger thresholds only remove rotations, and tick-free histories are enumerated too; the total-size limit (1 GiB) never triggers")
 	r.Assume("ticks are explicit events (what Group.processTicks runs per tick); the 1 s AutoFile ticker that closes and reopens the head file descriptor is not modelled (O_APPEND reopen, no effect on content)")
 	r.Assume("start states other than the empty directory: two rolled files just below a power of ten (names <head>.%03d) and an empty head, as rotation plus pruning by the total-size limit leave them; the files are written through the real WAL and renamed, the thousand rotations in between are not executed")
+	r.Assume("part 3 (readers open while the log is written and rotated): one goroutine executes writes, ticks and reads in every order (the group's mutex serialises them in the node too); records are small, so the head buffer never flushes a record in two pieces; at most 2 readers, 6 writes, 2 ticks")
 	r.Assume("end-of-height markers are written with ascending heights, as the node writes them; EndHeight(0) is written by OnStart whenever the head file is empty")
 	r.Assume("part 2 passes fixed timestamps to the real encoder through a hook (baseWAL.Write stamps time.Now(), whose encoding length varies); part 1 uses the real Write/WriteSync")
 	r.Assume("a crash loses exactly the head buffer (files keep every byte handed to the OS); torn sectors and lost renames are outside the bound")
